@@ -56,12 +56,78 @@ def live_blocks(body):
     return lb
 
 
+def flag_infeasible_edges(body, start):
+    """switch edges that cannot be taken on any path that begins at `start`, because the tested bool local is a flag (every definition
+    assigns a literal) whose value is fixed on those paths: all of them pass an assignment of one literal and no assignment of the other
+    literal is reachable from `start`. (`let mut changed = false; loop { x = ..; changed = true; } if changed { recompute }` seen from
+    the assignment of x.)"""
+    out = set()
+    reach = reach_from(body, [start])
+    for i, blk in enumerate(body.blocks):
+        if i not in reach:
+            continue
+        t = blk['t']
+        if t['k'] != 'switch':
+            continue
+        p = op_place(t['discr'])
+        if not isinstance(p, int):
+            continue
+        neg = False
+        l = p
+        # follow `_t = copy flag` / `_t = Not(flag)` single-definition temporaries
+        for _ in range(4):
+            ds = body.defs.get(l, [])
+            if len(ds) != 1 or ds[0][0] != 'stmt':
+                break
+            rv = ds[0][3]['rv']
+            if rv['k'] == 'use' and isinstance(op_place(rv['op']), int):
+                l = op_place(rv['op'])
+            elif rv['k'] == 'un' and rv.get('op') == 'Not' and isinstance(op_place(rv['a']), int):
+                l = op_place(rv['a'])
+                neg = not neg
+            else:
+                break
+        ds = body.defs.get(l, [])
+        if len(ds) < 2:
+            continue
+        vals = []
+        for (kind, bb, j, node) in ds:
+            if kind != 'stmt' or node['rv']['k'] != 'use' or 'c' not in node['rv']['op']:
+                vals = None
+                break
+            v = node['rv']['op']['c'].get('v')
+            if v not in (True, False, 'true', 'false', 0, 1):
+                vals = None
+                break
+            vals.append((bb, v in (True, 'true', 1)))
+        if not vals:
+            continue
+        for want in (True, False):
+            same = {bb for (bb, v) in vals if v == want and (bb in reach or bb == start)}
+            other = {bb for (bb, v) in vals if v != want and bb in reach and bb != start}
+            if not same or other:
+                continue
+            if start not in same and i in reach_from(body, [start], blocked_blocks=same):
+                continue      # a path from start reaches the test without passing the assignment
+            value = (not want) if neg else want
+            tv = [x[0] for x in t['targets']]
+            for (nx, lab) in body.succ[i]:
+                taken_when = None
+                if tv == [0]:
+                    taken_when = (lab[1] == 'otherwise')
+                elif tv == [1]:
+                    taken_when = (lab[1] == 1)
+                if taken_when is not None and taken_when != value:
+                    out.add((i, nx, lab))
+    return out
+
+
 def must_pass_before_return(body, start, via_blocks, returns=None):
-    """every path from start to a return block passes one of via_blocks"""
+    """every path from start to a return block passes one of via_blocks (paths that contradict a literal flag set on the way are not paths)"""
     returns = body.return_blocks() if returns is None else returns
     if start in via_blocks:
         return True
-    r = reach_from(body, [start], blocked_blocks=via_blocks)
+    r = reach_from(body, [start], blocked_blocks=via_blocks, blocked_edges=flag_infeasible_edges(body, start))
     return not any(x in r for x in returns)
 
 
